@@ -1,4 +1,5 @@
 import ScenicModel.Lemmas.PegTotal
+import ScenicModel.Lemmas.PegOracle
 /-! # C10 (parser part) — a well-formed pegen grammar never makes the parser hang
 
 Property theorems about the interpreter of `Model/PegTotal.lean`, for **every** grammar accepted by the checker `WF`,
@@ -66,6 +67,33 @@ theorem fuelBound_linear (g : Grammar) (n : Nat) :
   rw [Nat.succ_mul]
   omega
 
+/-- **Every action call is legitimate**: whatever property of the state seen by the Python action code is preserved
+by calls `act a p e` where `a` is an alternative of the grammar matched from `p` to `e ≤ n`, of zero width only if its
+items are nullable, is preserved by a whole run of the interpreter (any depth, rule, position, admissible cache). -/
+theorem oracle_invariant {E : Env σ} {g : Grammar} (hwf : WF g = true) (I : σ → Prop) (hact : ActPreserves E g I)
+    (f r p : Nat) (inv : Bool) (s : St σ) (hp : p ≤ E.n) (hc : CInv E g s.cache) (hi : I s.orc) :
+    I (interp E g f r p inv s).2.orc :=
+  interp_oracle_inv hwf hact f r p inv s hp hc hi
+
+/-- **Marked actions always see a token.**  If no alternative whose action is marked by `loc` can match nothing
+(`locSafe`, decidable), then during any run no marked action is ever executed on an empty token window: the flag of the
+monitoring environment stays down.  (pegen emits `tok = self._tokenizer.get_last_non_whitespace_token()` before an action
+that uses `LOCATIONS`; on an empty window `tok` is unbound and the generated parser dies with `UnboundLocalError`.) -/
+theorem actions_see_tokens {E : Env σ} {g : Grammar} (hwf : WF g = true) (loc : Nat → Bool) (hl : locSafe g loc = true)
+    (f r p : Nat) (inv : Bool) (s : St (σ × Bool)) (hp : p ≤ E.n) (hc : CInv (monitor loc E) g s.cache)
+    (h0 : s.orc.2 = false) : (interp (monitor loc E) g f r p inv s).2.orc.2 = false :=
+  interp_oracle_inv hwf (monitor_preserves hl) f r p inv s hp hc h0
+
+/-- the same for the two passes of `Parser.parse` (the second pass starts from the oracle state the first one left) -/
+theorem parse_actions_see_tokens {E : Env σ} {g : Grammar} (hwf : WF g = true) (loc : Nat → Bool)
+    (hl : locSafe g loc = true) (fuel start : Nat) (o : σ) :
+    (interp (monitor loc E) g fuel start 0 false ⟨{}, (o, false)⟩).2.orc.2 = false ∧
+    (interp (monitor loc E) g fuel start 0 true
+      ⟨{}, (interp (monitor loc E) g fuel start 0 false ⟨{}, (o, false)⟩).2.orc⟩).2.orc.2 = false := by
+  have h1 := actions_see_tokens (E := E) hwf loc hl fuel start 0 false ⟨{}, (o, false)⟩ (Nat.zero_le _)
+    (CInv_empty _ g) rfl
+  exact ⟨h1, actions_see_tokens (E := E) hwf loc hl fuel start 0 true _ (Nat.zero_le _) (CInv_empty _ g) h1⟩
+
 /-! ### the hypotheses are satisfiable, and the checker rejects what pegen would hang on -/
 
 /-- `e: e '+' NAME | NAME` (left-recursive leader), `s: e*` via a loop rule, `start: s ENDMARKER` -/
@@ -87,5 +115,15 @@ example : WF bad = false := by decide
 def bad2 : Grammar :=
   ⟨#[⟨[⟨[.plain (.rule 0), .plain (.tok 0)], false, 0⟩, ⟨[.plain (.tok 0)], false, 1⟩], .memo, false, false⟩], 0, 0, 1, 64⟩
 example : WF bad2 = false := by decide
+
+/-- in `demo` every alternative consumes a token, so every action may be marked -/
+example : locSafe demo (fun _ => true) = true := by decide
+example (E : Env Unit) : (interp (monitor (fun _ => true) E) demo (fuelBound demo E.n) 2 0 false ⟨{}, ((), false)⟩).2.orc.2 = false :=
+  actions_see_tokens (by decide) _ (by decide) _ 2 0 false _ (Nat.zero_le _) (CInv_empty _ demo) rfl
+/-- `x: [NAME] { …LOCATIONS… }` — an alternative that can match nothing whose action needs the last token: refused -/
+def bad3 : Grammar :=
+  ⟨#[⟨[⟨[.opt (.tok 0)], false, 0⟩], .memo, false, false⟩], 1, 0, 1, 64⟩
+example : WF bad3 = true := by decide
+example : locSafe bad3 (fun a => a == 0) = false := by decide
 
 end Scenic.PegTotal
